@@ -101,7 +101,9 @@ def gen_matrix_unit(rng):
             subj = rng.choice(('"héllo"', "[1,2,3]", '{"a":1,"b":2}'))
             exprs = ["(sub %s %s %s)" % (subj, jm.dumps(a), jm.dumps(b)) for b in eg.EXTREME_NUMS]
         elif f == "format_time":
-            exprs = ['(format_time %s "%%Y-%%m-%%d %%H:%%M:%%S")' % jm.dumps(b) for b in eg.EXTREME_NUMS]
+            # every magnitude (seconds, milliseconds, microseconds, nanoseconds since the epoch, and beyond), both signs
+            mags = [s * m * 10 ** e for e in range(0, 20) for m in (1, 17, 82, 93) for s in (1, -1)]
+            exprs = ['(format_time %s "%%Y-%%m-%%d %%H:%%M:%%S")' % jm.dumps(b) for b in eg.EXTREME_NUMS + rng.sample(mags, 40)]
         else:
             exprs = ["(%s %s %s)" % (f, jm.dumps(a), jm.dumps(b)) for b in eg.EXTREME_NUMS]
     elif r < 0.8:
@@ -216,6 +218,23 @@ def gen_deep_unit(rng):
             "input": (jm.dumps(rec) + "\n" + jm.dumps(rec)).encode("utf-8"), "policy": rng.choice(POLICIES)}
 
 
+def gen_sortlist_unit(rng):
+    """Every sorting function over long lists (> 20 elements: the standard library's sort changes algorithm there and checks
+    its comparator) of numbers that are hard to order: neighbours of 2^64 and 2^63, results of overflowed arithmetic (inf, NaN
+    arise only inside expressions), mixed with a few ordinary values."""
+    pool = [2 ** 64 - 1, 2 ** 64 - 2, 2 ** 64, 2 ** 64 + 2048, 2 ** 63, 2 ** 63 - 1, -(2 ** 63), -(2 ** 63) + 1, -(2 ** 63) - 1025, 2 ** 53, 2 ** 53 + 1,
+            1.8446744073709552e19, -9.223372036854776e18, 0, 0.5, 1e300, -1e300, 5e-324, 18446744073709550000, -1, 7]
+    n = rng.choice((2, 3, 21, 24, 40, 100))
+    arr = [rng.choice(pool) for _ in range(n)]
+    src = rng.choice((".arr", ".arr", "(map .arr (* . 1e300 1e300))", "(map .arr (- (* . 1e300 1e300) (* . 1e300 1e300)))", "(map .arr (/ . 0.0))",
+                      "(map .arr (? (> . 0) (- (* 1e300 1e300) (* 1e300 1e300)) .))", "(map .arr (% (* . 1e300 1e300) 7))"))
+    fns = ["(sort %s)", "(sort_unique %s)", "(sort_by %s .)", "(sort_by %s (- .))", "(order %s)", "(max %s)", "(min %s)", "(sort_by_values (fold %s {} (put .so_far (stringify .index) .value)))",
+           "(group_by %s (stringify .))", "(first (sort %s))", "(sum %s)", "(avg %s)", "(join (sort %s) \",\")"]
+    exprs = [f % src for f in rng.sample(fns, 4)]
+    return {"kind": "expr", "pos": rng.choice(("select", "select", "sort", "filter")), "exprs": exprs, "funcs": ["sortlist"], "sortlist": True,
+            "input": jm.dumps({"arr": arr}).encode("utf-8"), "policy": rng.choice(POLICIES)}
+
+
 def gen_exec_unit(rng):
     """`exec` with a fixed list of harmless commands: whatever the child does with its two pipes and its exit status, jawk
     comes back with a value or nothing."""
@@ -296,7 +315,7 @@ def worker(ctx):
                 st.count("stopped_by_deadline")
                 break
             r = ctx.rng.random()
-            unit = gen_bytes_unit(ctx.rng) if r < 0.3 else gen_matrix_unit(ctx.rng) if r < 0.42 else gen_exec_unit(ctx.rng) if r < 0.425 else gen_deep_unit(ctx.rng) if r < 0.435 else gen_expr_unit(ctx.rng)
+            unit = gen_bytes_unit(ctx.rng) if r < 0.3 else gen_matrix_unit(ctx.rng) if r < 0.42 else gen_exec_unit(ctx.rng) if r < 0.425 else gen_deep_unit(ctx.rng) if r < 0.435 else gen_sortlist_unit(ctx.rng) if r < 0.45 else gen_expr_unit(ctx.rng)
             if unit["kind"] == "expr" and ctx.debug_drv is not None and ctx.rng.random() < 0.35:
                 unit["debug"] = True
             run_unit(ctx, unit)
